@@ -115,6 +115,15 @@ def run_shard(ctx):
         return False, fp, None, []
 
     before = ctx.stats.evaluations
+    if ctx.shard == 0:
+        # completeness self-test of the I/O shim against strace (see vlib/stracecheck.py)
+        from vlib import stracecheck
+
+        result = stracecheck.run()
+        ctx.stats.label(f'shim-selftest-vs-strace:{result["status"]}')
+        ctx.stats.extra['shim_selftest'] = {k: v for k, v in result.items() if k != 'why'}
+        if result['status'] == 'mismatch':
+            raise HarnessError(f'the library performs I/O on the container that the shim does not see: {result}')
     explore(ctx, cr.strategy(), run_one, 60 if quick else 1500)
     # `explore` counts one evaluation per pair on top of the kill points: keep only kill points in `evaluations`
     ctx.stats.extra['pairs'] = ctx.stats.hist.get('pair-exhaustive', 0)
